@@ -44,6 +44,17 @@ known('C25','sharedpoll','push-for-untracked-key:removal:after-untrack-reply','S
 known('C25','sharedpoll','push-outside-subscription:removal:push','SharedPollRevokeKeys racing a client unsubscribe: keyedWriteRemoval -> writePublication checks flagSubscribed under RLock and enqueues outside the lock; the unsubscribe completes in between and the Removed publication is written after the unsubscribe reply')
 known('C25','sharedpoll','push-outside-subscription:update:push',"two publishers with different epochs at once (epoch flip-flop, thorough tier, 2 deviations): both flips collect the connection; the first Client.Unsubscribe has removed the channel but not yet run cleanupKeyed when the second Client.Unsubscribe (a no-op in c.unsubscribe) already writes its unsubscribe push, and the second publisher's broadcast then still finds the key in trackedKeys: a key update is pushed after the unsubscribe push")
 
+known("C37","connlimits","held-over-limit:map","ClientChannelLimit=1, two map subscribe commands (Type=1, Phase=State) for ch0 and ch1 with asynchronous callbacks: validateSubscribeRequest checks the limit for map subscribes without reserving (the reservation happens later in client_map.go without a re-check), both succeed and Channels()=[ch0 ch1]")
+known("C37","connlimits","held-over-limit:map+server","ClientChannelLimit=1, a map subscribe on ch0 in flight and a concurrent server-side Client.Subscribe(ch1): Client.Subscribe counts only len(c.channels) and ignores c.mapSubscribing; both get established, no channel-limit disconnect")
+known("C41","surveyx","not-returned-when-all-answered:dup","3 nodes, one node's survey response delivered twice: the duplicates fill the survey channel (capacity = number of nodes) before the collector reads, the last node's answer hits the non-blocking send's default branch and is dropped; Survey blocks until the deadline and returns DeadlineExceeded although every node answered")
+for sig,what in [("first-message-not-connect-reply:reply-written-later","connectCmd registers the client in the hub (addClient) before the connect reply is written: Client.Send reached through Hub().UserConnections(user), or Node.Subscribe(user, ch), enqueues a push ahead of the connect reply"),
+  ("first-message-not-connect-reply:reply-never-written","same window followed by Node.Disconnect(user): the push is written and the connect reply never is"),
+  ("connect-reply-encoded","same window on a dictionary-compression transport: the early push consumes the raw slot (compressionPending), the connect reply carrying the dictionary goes through the encoder"),
+  ("encode-after-close","ConnectReply.ReplyWithoutQueue=true: replies bypass the writer, so close() running concurrently with an rpc reply calls CloseDictionaryCompression before the reply's Encode"),
+  ("close-overlaps-encode","ReplyWithoutQueue=true: DictionaryConnection.Close runs concurrently with an Encode of a direct reply write"),
+  ("raw-frame-after-connect-reply","ReplyWithoutQueue=true: a direct reply written after CloseDictionaryCompression goes out without the encoder")]:
+    known("C11","connfirst",sig,what)
+
 # ---- fixed (suppress nothing; the checks pass on the repaired tree)
 for sig,what in [("panic-extractPushData:p-header-lt3","extractPushData(\"__p__\") / \"__p__x\": header shorter than 3 bytes sliced out of range"),
   ("panic-extractPushData:d-nothing-after-prev","extractPushData(\"__d1:0::-0:\"): nothing after the previous payload, input[prevLen+1:] out of range"),
@@ -78,5 +89,6 @@ fixed("C08","shutdownx","connection-survives-shutdown:generic","ada6cf79","NewCl
 fixed("C08","shutdownx","connected-after-shutdown:sse","ada6cf79","SSE connection made after Shutdown became connected")
 fixed("C08","shutdownx","connected-after-shutdown:http_stream","ada6cf79","HTTP-stream connection made after Shutdown became connected")
 fixed("C08","shutdownx","connection-survives-shutdown:race","ada6cf79","a connect command racing Node.Shutdown registered in the hub after the shutdown pass took its snapshot and stayed connected")
+fixed("C36","livetimers","subexp-client:not-ended:refresh-answered-expired","fcd94ecb","client sub_refresh answered SubRefreshReply{Expired:true}: expireAt 0 stored, the subscription never expired")
 json.dump(F,open('/verif/known_findings.json','w'),indent=1)
 print(len([f for f in F if f['status']=='known']),'known',len([f for f in F if f['status']=='fixed']),'fixed')
